@@ -244,6 +244,8 @@ def run_history(kind, seed, nops, ops=None, want_sites=False, kinds=None):
         doc.save()
         if want_sites:
             out['site'] = site_lines(doc, before_state, lab)
+        # after the save the in-memory model (node matrices as they are now, not re-derived) is what a reload will give
+        in_memory = strip(snap.snapshot(doc, norm7=True, errors=False))
         from collada.xmlutil import writeXML
         b1 = io.BytesIO()
         writeXML(doc.xmlnode, b1)
@@ -266,6 +268,11 @@ def run_history(kind, seed, nops, ops=None, want_sites=False, kinds=None):
         if df:
             where = re.sub(r'\[\d+\]', '[]', df[0].split(':')[0])
             out.update(ok=False, what='%sreloaded model differs from the edited model at %s' % (label, '; '.join(df[:4])), sig='diff:' + where)
+            return out
+        df = snap.diff(in_memory, got)
+        if df:
+            where = re.sub(r'\[\d+\]', '[]', df[0].split(':')[0])
+            out.update(ok=False, what='%sreloaded model differs from the model held in memory after the save at %s' % (label, '; '.join(df[:4])), sig='memory:' + where)
             return out
     if d1.errors:
         out.update(ok=False, what='reload recorded errors %s' % [type(e).__name__ for e in d1.errors], sig='reload-errors')
